@@ -408,6 +408,13 @@ def check(run):
     from . import C11 as _C11
     _C11.ob_validated_set(run, "O12.10")
     C13.ob_error_mapping(run, "O12.11")
+    # a correct leader is never flagged: the blockstore's own bookkeeping of slices may refuse a reconstructed slice for the reviewed reasons only
+    # (mutation map of BlockData / SlotBlockData), and the decoder of a slice's transactions admits everything a slice can carry
+    D.ob_state_mutations(run, "O12.12", ['consensus::blockstore::slot_block_data::BlockData', 'consensus::blockstore::slot_block_data::SlotBlockData'],
+                         'a new refusal or removal in the slice bookkeeping turns valid leader-signed shreds into an InvalidShred verdict, which is blamed on the leader')
+    from . import C19 as _C19s
+    with run.restricted(lambda oid: oid == "O12.13.1"):
+        _C19s.check(run, prefix="O12.13")
     if run.tier == "thorough":
         witness(run, "O12.1w")
 
